@@ -110,6 +110,17 @@ case("sniff", "Trace_Sniff", {}, [
 ], {"ids": [2, 3, 5, 6]})
 
 
+# ---- Trace_StreamSync: a clean two-frame concatenation read under a source that answers one refill with Interrupted (both frames must
+# come back) or with a transient error (the loss must be reported); out-of-order and fabricated frames
+def _arr(i, returned, io=False, at=3, rep=0, garbage=None):
+    return {"ev": "arr", "id": i, "n": 2, "garbage": garbage or [[], [], []], "chunks": [1], "returned": returned, "errors": 1 + rep, "panicked": False,
+            "last_error": "eof looking for frame sync", "pred": [], "fault": {"at": at, "io": io}, "ioerrs_reported": rep, "min_frame_bytes": 20}
+case("streamsync", "Trace_StreamSync", {}, [
+    _arr(1, [1, 2]), _arr(2, [2]), _arr(3, [2], io=True, rep=1), _arr(4, [2, 1], at=-1), _arr(5, [1, 3], at=-1), _arr(6, [1, 2], at=-1),
+    _arr(7, [1], at=-1, garbage=[[], ["FF", "S", "x"], []]),
+], {"ids": [2, 4, 5]})
+
+
 def run(pid):
     wd = workdir("selftest")
     bad = 0
